@@ -206,8 +206,58 @@ def correspondence(rep, ctx):
     rep.notes["mismatches"] = bad
 
 
+PREFIX = {"p": Fraction(1, 10**12), "n": Fraction(1, 10**9), "μ": Fraction(1, 10**6), "u": Fraction(1, 10**6),
+          "m": Fraction(1, 1000), "": Fraction(1), "k": Fraction(1000), "M": Fraction(10**6), "G": Fraction(10**9),
+          "T": Fraction(10**12), "P": Fraction(10**15), "E": Fraction(10**18)}
+
+
+def spec_factor(unit: str):
+    """the unit in Bq / g / mol, from the SI prefixes and 1 Ci = 3.7e10 Bq, 1 dpm = 1/60 Bq, t = ton = 1e6 g — written
+    out here independently of both the library and the Lean tables"""
+    if unit == "dpm":
+        return "activity", Fraction(1, 60)
+    if unit in ("t", "ton"):
+        return "mass", Fraction(10**6)
+    for base, kind, f in (("Bq", "activity", Fraction(1)), ("Ci", "activity", Fraction(37 * 10**9)), ("mol", "moles", Fraction(1)),
+                          ("g", "mass", Fraction(1))):
+        if unit.endswith(base) and unit[:-len(base)] in PREFIX:
+            return kind, PREFIX[unit[:-len(base)]] * f
+    return None, None
+
+
 def search(rep, ctx) -> bool:
-    return False
+    """a tie broke (a unit table no longer equals the specification, or a theorem is gone): look for a unit pair whose
+    readings do not differ by the defined ratio, on the real code, both classes"""
+    rd = ctx.rd
+    found = False
+    for cls, conv in ((rd.Inventory, rd.converters.UnitConverterFloat), (rd.InventoryHP, rd.converters.UnitConverterSympy)):
+        for table, reader in ((conv.activity_units, "activities"), (conv.mass_units, "masses"), (conv.moles_units, "moles")):
+            units = list(table)
+            for u1 in units:
+                k1, f1 = spec_factor(u1)
+                if f1 is None:
+                    continue
+                try:
+                    inv = cls({"H-3": 2.5}, u1)
+                except Exception:  # noqa: BLE001
+                    continue
+                for u2 in units:
+                    k2, f2 = spec_factor(u2)
+                    if f2 is None or k2 != k1:
+                        continue
+                    got = F(getattr(inv, reader)(u2)["H-3"])
+                    want = Fraction(5, 2) * f1 / f2
+                    if abs(got - want) > want / 10**12:
+                        rep.violation("failing-input", f"{cls.__name__}({{'H-3': 2.5}}, {u1!r}).{reader}({u2!r}) = {float(got)!r}, "
+                                      f"the defined ratio of the units gives {float(want)!r}",
+                                      {"call": "unit-ratio", "cls": cls.__name__, "unit_in": u1, "unit_out": u2}, True)
+                        found = True
+                        break
+                if found:
+                    break
+            if found:
+                break
+    return found
 
 
 def replay(body, ctx) -> bool:
